@@ -100,6 +100,7 @@ def run_history(ops: List[List[Any]], via_queue: bool, duplex: bool) -> Tuple[Li
     bad: List[Tuple[str, Any]] = []
     evid = 0
     counters = {'ops': 0, 'deliveries_checked': 0, 'breaks': 0}
+    retired: List[Sub] = []         # channels given up by a re-subscribing id (no verdict on them beyond cleanup)
 
     def process() -> None:
         try:
@@ -127,6 +128,29 @@ def run_history(ops: List[List[Any]], via_queue: bool, duplex: bool) -> Tuple[Li
                 s.subscribed = True
                 s.expected.append(('ack', SUBSCRIBED))
                 live_model.append(sid)
+            elif kind == 'resub':
+                # the same id subscribes again on a FRESH channel: after an unsubscribe, after its old channel broke (whether or
+                # not the dispatcher has noticed yet), or while the old one is still alive (channel migration).  From its
+                # acknowledgement on, the fresh channel is that subscriber: it gets every later event exactly once, in order.
+                sid, break_old = op[1], op[2]
+                old_s = subs.get(sid)
+                if old_s is not None:
+                    if break_old and not old_s.broken:
+                        old_s.drain()
+                        old_s.broken = True
+                        old_s.recv.close()
+                        counters['breaks'] += 1
+                    old_s.drain()
+                    retired.append(old_s)
+                s = Sub(sid, duplex)
+                subs[sid] = s
+                eq.subscribe(sid, s.send)
+                process()
+                s.subscribed = True
+                s.expected.append(('ack', SUBSCRIBED))
+                if sid not in live_model:
+                    live_model.append(sid)
+                counters['resubscribes'] = counters.get('resubscribes', 0) + 1
             elif kind == 'unsub':
                 sid = op[1]
                 eq.unsubscribe(sid)
@@ -158,7 +182,9 @@ def run_history(ops: List[List[Any]], via_queue: bool, duplex: bool) -> Tuple[Li
             for s in subs.values():
                 if s.sid not in keep_unread:
                     s.drain()
-        # verdicts
+        # verdicts (every unbroken channel is read to its end first: 'keep unread' only matters up to the break)
+        for s in subs.values():
+            s.drain()
         for sid, s in subs.items():
             if s.broken:
                 # only what it read before breaking: must be a prefix of the model sequence
@@ -184,7 +210,7 @@ def run_history(ops: List[List[Any]], via_queue: bool, duplex: bool) -> Tuple[Li
             if not subs[sid].broken and sid not in disp.subscribers:
                 bad.append(('live-subscriber-dropped', sid))
     finally:
-        for s in subs.values():
+        for s in list(subs.values()) + retired:
             s.close()
         for c in list(disp.subscribers.values()):
             try:
@@ -202,6 +228,8 @@ def feature(ops: List[List[Any]], duplex: bool) -> str:
         f.append('break-with-unread-data')
     elif any(o[0] == 'break' for o in ops):
         f.append('break-drained')
+    if any(o[0] == 'resub' for o in ops):
+        f.append('resubscribe')
     return '+'.join(f)
 
 
@@ -485,7 +513,121 @@ def stress(case: Dict[str, Any]) -> Tuple[List[Tuple[str, Any]], Dict[str, int]]
     return bad, c
 
 
+def relay_cycles(case: Dict[str, Any]) -> Tuple[List[Tuple[str, Any]], Dict[str, int]]:
+    """One EventSubscriber object taken through several setup() / shutdown() cycles (as the inspect-traffic plugin does on
+    enable / disable / enable) against the real dispatcher thread.  Every event published while it is subscribed reaches its
+    callback exactly once and in order; nothing published between two cycles does.  A witness subscriber reading a
+    sentinel event is the barrier: once it holds the sentinel the dispatcher has fanned out everything published before."""
+    rng = random.Random('c18r:%s:%s' % (case['seed'], case['i']))
+    mpq = multiprocessing.Queue()
+    eq = EventQueue(mpq)
+    shutdown = threading.Event()
+    disp = EventDispatcher(shutdown=shutdown, event_queue=eq)
+    dt = threading.Thread(target=disp.run, daemon=True)
+    dt.start()
+    bad: List[Tuple[str, Any]] = []
+    inconclusive = False
+    got: List[Any] = []
+    relay = EventSubscriber(eq, callback=lambda ev: got.append(tuple(ev['event_payload'].get('id') or ())))
+    wit = Reader('witness', duplex=True)
+    wit.start()
+    checked = 0
+    cycles_done = 0
+
+    def barrier(tag: Any) -> bool:
+        eq.publish(request_id='r', event_name=eventNames.WORK_STARTED, event_payload={'id': ['S', tag]}, publisher_id='h')
+        end = time.time() + WAIT_S
+        while time.time() < end and dt.is_alive():
+            if ('S', tag) in wit.got:
+                return True
+            time.sleep(0.002)
+        return ('S', tag) in wit.got
+    try:
+        eq.subscribe(wit.sid, wit.send)
+        end = time.time() + WAIT_S
+        while not wit.subscribed.is_set() and time.time() < end:
+            time.sleep(0.002)
+        if not wit.subscribed.is_set():
+            inconclusive = True
+        for cyc in range(case['cycles']):
+            if inconclusive or bad:
+                break
+            relay.setup()           # SUBSCRIBE is queued before anything published below
+            n = rng.choice([1, 3, 20])
+            for k in range(n):
+                eq.publish(request_id='r', event_name=eventNames.WORK_STARTED, event_payload={'id': ['C', cyc, k]}, publisher_id='h')
+            if not barrier(('in', cyc)):
+                if dt.is_alive():
+                    inconclusive = True
+                else:
+                    bad.append(('dispatcher-thread-died', None))
+                break
+            want = [('C', cyc, k) for k in range(n)]
+            # everything is in the relay's pipe now; its thread hands it to the callback
+            end = time.time() + WAIT_S
+            th = relay.relay_thread
+            while time.time() < end:
+                mine = [x for x in got if x[:2] == ('C', cyc)]
+                if len(mine) >= n:
+                    break
+                if th is None or not th.is_alive():
+                    time.sleep(0.05)
+                    mine = [x for x in got if x[:2] == ('C', cyc)]
+                    break
+                time.sleep(0.002)
+            mine = [x for x in got if x[:2] == ('C', cyc)]
+            checked += len(mine)
+            if mine != want:
+                if len(mine) < n and th is not None and th.is_alive():
+                    inconclusive = True     # slow machine: the relay thread is still working
+                else:
+                    kind = 'lost' if len(set(mine)) < n else ('duplicate' if len(mine) > len(set(mine)) else 'reordered')
+                    bad.append(('relay-cycle%s-%s' % ('1' if cyc == 0 else 'N', kind), {'cycle': cyc, 'got': mine[:5], 'want': n,
+                                                                          'relay_thread_alive': bool(th and th.is_alive())}))
+                break
+            relay.shutdown()        # UNSUBSCRIBE is queued before anything published below
+            for k in range(rng.choice([0, 2])):
+                eq.publish(request_id='r', event_name=eventNames.WORK_STARTED, event_payload={'id': ['X', cyc, k]}, publisher_id='h')
+            if not barrier(('out', cyc)):
+                if dt.is_alive():
+                    inconclusive = True
+                else:
+                    bad.append(('dispatcher-thread-died', None))
+                break
+            cycles_done += 1
+        stray = [x for x in got if x and x[0] in ('X',)]
+        if stray:
+            bad.append(('relay-delivered-event-published-while-unsubscribed', {'events': stray[:5]}))
+        if len([x for x in got if x and x[0] == 'C']) != len({x for x in got if x and x[0] == 'C'}):
+            bad.append(('relay-duplicate', None))
+    finally:
+        shutdown.set()
+        try:
+            if relay.relay_thread is not None:
+                relay.shutdown()
+        except Exception:
+            pass
+        dt.join(timeout=3)
+        wit.close()
+        for c in list(disp.subscribers.values()):
+            try:
+                c.close()
+            except Exception:
+                pass
+        dispose_queue(mpq)
+    c = {'relay_cycles': cycles_done, 'relay_deliveries_checked': checked, 'relay_resetups': max(0, cycles_done - 1)}
+    if inconclusive:
+        c['_inconclusive'] = 1
+    return bad, c
+
+
 def run_case(case: Dict[str, Any]) -> Dict[str, Any]:
+    if case['kind'] == 'relay-cycles':
+        bad, counters = relay_cycles(case)
+        inconc = 'relay-wait-timeout' if counters.pop('_inconclusive', 0) else None
+        return {'viol': [{'key': 'relay-cycles|%s' % w, 'detail': d} for (w, d) in bad], 'nontrivial': True,
+                'sig': 'relay/%s' % case['i'], 'obs': dict(counters, relay_runs=1), 'inconclusive': inconc,
+                'sample': {'kind': 'relay-cycles', 'case': case}}
     if case['kind'] == 'stress':
         bad, counters = stress(case)
         inconc = 'stress-ack-timeout' if counters.pop('_inconclusive', 0) else None
@@ -557,8 +699,26 @@ def cases(tier: str, seed: int):
         i += 1
         yield {'seed': seed, 'i': i, 'kind': 'hist', 'histories': block, 'via_queue': False, 'pipes': [True, False]}
     rng = random.Random('c18:%d' % seed)
-    for _ in range(40 if tier == 'quick' else 1500):
+    # directed: every way an id can come back on a fresh channel, with publishes around it and a bystander
+    directed = []
+    for state in ('live', 'broken-unnoticed', 'broken-noticed', 'unsubscribed'):
+        for brk in (False, True):
+            h0: List[List[Any]] = [['sub', 's0'], ['sub', 's1'], ['pub']]
+            if state == 'broken-unnoticed':
+                h0 += [['break', 's0', False]]
+            elif state == 'broken-noticed':
+                h0 += [['break', 's0', True], ['pub']]
+            elif state == 'unsubscribed':
+                h0 += [['unsub', 's0']]
+            h0 += [['resub', 's0', brk], ['pub'], ['pub'], ['unsub', 's0'], ['pub'], ['resub', 's0', False], ['pub']]
+            directed.append(h0)
+    i += 1
+    yield {'seed': seed, 'i': i, 'kind': 'hist', 'histories': directed, 'via_queue': False, 'pipes': [True, False]}
+    i += 1
+    yield {'seed': seed, 'i': i, 'kind': 'hist', 'histories': directed, 'via_queue': True, 'pipes': [True, False]}
+    for rep in range(40 if tier == 'quick' else 1500):
         hs = []
+        resub = rep % 2 == 1
         for _ in range(4):
             n = rng.randint(6, 40)
             h: List[List[Any]] = []
@@ -570,6 +730,14 @@ def cases(tier: str, seed: int):
                     used += 1
                     live.append(sid)
                     h.append(['sub', sid])
+                elif r < 0.27 and used and resub:
+                    sid = 's%d' % rng.randrange(used)
+                    brk = rng.random() < 0.5
+                    if sid in broken:
+                        broken.remove(sid)
+                    if sid not in live:
+                        live.append(sid)
+                    h.append(['resub', sid, brk])
                 elif r < 0.32:
                     sid = 's%d' % rng.randint(0, 3)
                     if sid in live:
@@ -584,6 +752,9 @@ def cases(tier: str, seed: int):
             hs.append(h)
         i += 1
         yield {'seed': seed, 'i': i, 'kind': 'hist', 'histories': hs, 'via_queue': True, 'pipes': [rng.random() < 0.7]}
+    for k in range(4 if tier == 'quick' else 40):
+        i += 1
+        yield {'seed': seed, 'i': i, 'kind': 'relay-cycles', 'cycles': rng.choice([2, 3])}
     for k in range(16 if tier == 'quick' else 400):
         i += 1
         yield {'seed': seed, 'i': i, 'kind': 'stress', 'publishers': rng.choice([1, 2, 4, 8]), 'events': rng.choice([50, 200, 400]),
@@ -594,7 +765,8 @@ def cases(tier: str, seed: int):
 def floors(tier: str) -> Dict[str, int]:
     return {'histories': 3000, 'nontrivial_histories': 1000, 'breaks': 500, 'breaks_with_unread_data': 100,
             'deliveries_checked': 5000, 'via_queue': 100, 'stress_runs': 10, 'stress_deliveries_checked': 5000,
-            'stress_mid_subscribers': 8, 'stress_mid_must_events': 200, 'stress_breakers': 3}
+            'stress_mid_subscribers': 8, 'stress_mid_must_events': 200, 'stress_breakers': 3,
+            'resubscribes': 100, 'relay_cycles': 6, 'relay_resetups': 3}
 
 
 if __name__ == '__main__':
